@@ -261,6 +261,63 @@ func C09(c *Ctx) {
 	}
 	c.runKnownC09()
 	c.DiffCheck(cfg)
+	// left-recursive grammars: -optimize-grammar together with -support-left-recursion (the analysis that
+	// finds the recursive rules and their leaders runs on the optimized grammar)
+	lgs := c09LRStrata()
+	lcfg := &DiffConfig{
+		Grammars: lgs,
+		IsLR:     func(int) bool { return true },
+		VarFor: func(gi int, g *gast.Grammar) [][]string {
+			return [][]string{{"-support-left-recursion"}, {"-support-left-recursion", "-optimize-grammar"}, {"-optimize-grammar", "-support-left-recursion", "-optimize-parser"}}
+		},
+		Cases: func(gi int, g *gast.Grammar) []*mon.Case {
+			var cs []*mon.Case
+			for _, in := range lrInputs(g, rng, c.N(60, 200)) {
+				if len(in) > 60 {
+					continue
+				}
+				cs = append(cs, &mon.Case{Input: in, MaxExpr: 400000, MaxEvents: 600})
+			}
+			for _, in := range gast.Exhaustive(g.Alphabet(), 4, c.N(300, 1500)) {
+				cs = append(cs, &mon.Case{Input: in, MaxExpr: 400000, MaxEvents: 600})
+			}
+			return cs
+		},
+		Compare: c09Compare,
+		NonTrivial: func(r *mon.Result, cs *mon.Case) bool {
+			return r.ErrNil && (len(r.Trace) > 0 || strings.Contains(r.Val, ","))
+		},
+		Chunk: 50,
+		Sig:   c09Sig,
+	}
+	c.DiffCheck(lcfg)
+}
+
+func c09LRStrata() []*gast.Grammar {
+	mk := func(rules ...*gast.Rule) *gast.Grammar { return &gast.Grammar{Rules: rules} }
+	r := func(n string, e *gast.Expr) *gast.Rule { return &gast.Rule{Name: n, Expr: e} }
+	txt := func(e *gast.Expr, id int) *gast.Expr { return gast.A(e, id, mon.Spec{R: 2}) }
+	none := func(e *gast.Expr, id int) *gast.Expr { return gast.A(e, id, mon.Spec{R: 1}) }
+	num := func() *gast.Expr { return gast.Plus(gast.Cl(&gast.ClassSpec{Ranges: [][2]rune{{'0', '9'}}})) }
+	return []*gast.Grammar{
+		// expr/term/factor with leaf rules to inline
+		mk(r("S", gast.S(gast.Ref("E"), gast.NotE(gast.Dot()))), r("E", gast.C(txt(gast.S(gast.Lab("a", gast.Ref("E")), gast.Ref("Plus"), gast.Lab("b", gast.Ref("T"))), 1), gast.Ref("T"))),
+			r("T", gast.C(txt(gast.S(gast.Lab("a", gast.Ref("T")), gast.L("*"), gast.Lab("b", gast.Ref("F"))), 2), gast.Ref("F"))), r("F", gast.C(gast.Ref("N"), gast.S(gast.L("("), gast.Ref("E"), gast.L(")")))),
+			r("N", txt(num(), 3)), r("Plus", gast.C(gast.L("+"), gast.L("-")))),
+		// the recursive reference stands behind an inlined leaf rule that can match empty: an action, a
+		// choice, a labelled sequence, a plain repetition
+		mk(r("S", gast.S(gast.Ref("Expr"), gast.NotE(gast.Dot()))), r("Expr", gast.C(txt(gast.S(gast.Ref("_"), gast.Lab("l", gast.Ref("Expr")), gast.L("+"), gast.Lab("r", gast.Ref("Term"))), 1), gast.S(gast.Ref("_"), gast.Ref("Term")))),
+			r("_", none(gast.Star(gast.L(" ")), 2)), r("Term", txt(num(), 3))),
+		mk(r("S", gast.S(gast.Ref("Expr"), gast.NotE(gast.Dot()))), r("Expr", gast.C(txt(gast.S(gast.Ref("Sp"), gast.Lab("l", gast.Ref("Expr")), gast.L("+"), gast.Lab("r", gast.Ref("Term"))), 1), gast.S(gast.Ref("Sp"), gast.Ref("Term")))),
+			r("Sp", gast.C(gast.L(" "), gast.L(""))), r("Term", txt(num(), 3))),
+		mk(r("S", gast.S(gast.Ref("Expr"), gast.NotE(gast.Dot()))), r("Expr", gast.C(txt(gast.S(gast.Ref("Ws"), gast.Lab("l", gast.Ref("Expr")), gast.L("+"), gast.Lab("r", gast.Ref("Term"))), 1), gast.Ref("Term"))),
+			r("Ws", gast.S(gast.Lab("w", gast.Opt(gast.L(" "))), gast.AndC(2, mon.Spec{}))), r("Term", txt(gast.S(gast.Star(gast.L(" ")), num()), 3))),
+		mk(r("S", gast.S(gast.Ref("Expr"), gast.NotE(gast.Dot()))), r("Expr", gast.C(txt(gast.S(gast.Ref("Ws"), gast.Lab("l", gast.Ref("Expr")), gast.L("+"), gast.Lab("r", gast.Ref("Term"))), 1), gast.Ref("Term"))),
+			r("Ws", gast.Star(gast.L(" "))), r("Term", txt(gast.S(gast.Star(gast.L(" ")), num()), 3))),
+		// an indirect cycle with leaf rules on both members, and a second, direct level
+		mk(r("S", gast.S(gast.Ref("A"), gast.NotE(gast.Dot()))), r("A", gast.C(txt(gast.S(gast.Lab("x", gast.Ref("B")), gast.Ref("X")), 1), gast.Ref("Y"))), r("B", gast.C(txt(gast.S(gast.Lab("x", gast.Ref("A")), gast.L("z")), 2), gast.Ref("W"))),
+			r("X", gast.L("x")), r("Y", gast.C(gast.L("y"), gast.Ref("L2"))), r("W", gast.Cl(gast.Chars("w"))), r("L2", gast.C(txt(gast.S(gast.Lab("a", gast.Ref("L2")), gast.L("+"), gast.Ref("Y2")), 3), gast.Ref("Y2"))), r("Y2", gast.L("1"))),
+	}
 }
 
 // c09Sig recognises known finding F07: a leaf rule is inlined into a host that has a label of the
